@@ -825,6 +825,54 @@ def g4n(rng):
     return case
 
 
+def g4p(rng):
+    """shape-partitioned convolutions in output-stationary form (the lower output level is iterated by range): strides, dilations,
+    optional channel rank, one or two followers in a term, optionally two terms; uniform_shape or nway_shape on the output rank"""
+    a = rng.choice([1, 1, 2, 2, 3, 4])
+    b = rng.choice([1, 1, 2, 4])
+    Qx, Sx = rng.randint(1, 7), rng.randint(1, 3)
+    Wx = a * (Qx - 1) + b * (Sx - 1) + 1
+    widx = [(a, "q"), (b, "s")]
+    tags = ["g4p", "conv", "a%d" % a, "b%d" % b, "part1"]
+    chan = rng.random() < 0.3
+    pre = [V("C")] if chan else []
+    prer = ["C"] if chan else []
+    decl = {"I": prer + ["W"], "F": prer + ["S"], "O": ["Q"]}
+    fs = [("t", "I", pre + [widx]), ("t", "F", pre + [V("S")])]
+    ext = {"Q": Qx, "S": Sx, "W": Wx}
+    if chan:
+        ext["C"] = rng.randint(1, 3); tags.append("channel")
+    if rng.random() < 0.25:
+        decl["J"] = prer + ["W"]
+        fs.append(("t", "J", pre + [widx])); tags.append("two_followers")
+    rng.shuffle(fs)
+    terms = [dict(kind="times", factors=fs, sel=None)]
+    if rng.random() < 0.2:
+        decl["K"] = list(decl["I"]); decl["H"] = list(decl["F"])
+        terms.append(dict(kind="times", factors=[("t", "K", pre + [widx]), ("t", "H", pre + [V("S")])], sel=None)); tags.append("two_terms")
+    e = dict(out="O", oidx=[V("Q")], terms=terms)
+    case = dict(decl=decl, eins=[e], mapping={}, ext=ext, env={}, tags=tags)
+    if rng.random() < 0.3:
+        k = rng.randint(1, 4)
+        case["mapping"]["partitioning"] = {"O": {"Q": ["nway_shape(%d)" % k], "W": ["follow(Q)"]}}
+        sz = (Qx - 1) // k + 1
+        tags.append("nway")
+    else:
+        sz = rng.randint(1, 5)
+        case["mapping"]["partitioning"] = {"O": {"Q": ["uniform_shape(%d)" % sz], "W": ["follow(Q)"]}}
+    case["env"]["Q0"] = sz
+    case["env"]["W0"] = a * sz
+    if rng.random() < 0.8:
+        loop = ["Q1", "Q0", "S"]
+        if chan:
+            loop.insert(rng.randint(0, 3), "C")
+        if rng.random() < 0.3 and not chan:
+            pass
+        case["mapping"]["loop-order"] = {"O": loop}
+        tags.append("loop:" + ",".join(loop))
+    return case
+
+
 def g4b(rng):
     """convolution with two inputs sharing the affine access, shape + occupancy partitioning of the output rank
     (leader: one of the inputs), input rank following"""
